@@ -8,7 +8,7 @@ import string
 from harness import check, settings, tlc
 
 TEXTS = ["12", "-3", "1.5", "1e3", "0.25", "True", "[1, 2]", "[[1, 2], [3]]", "(1, 2)", "abc", "'abc'", "a b", "1,2",
-         "x_1", "3.0e-1x"]
+         "x_1", "3.0e-1x", "0", "[0, 5]", "[0.0, 20.0, 0]", "False"]
 # documented ranges copied here only to keep C08's own cases inside them (C12 decides the ranges)
 SAFE_TEXT = {"quantum_efficiency": ["0.25"], "temperature": ["12", "1.5", "1e3", "0.25"],
              "adc_bit_resolution": ["12"], "charge_to_volt_conversion": ["12", "1.5", "0.25"],
@@ -151,7 +151,7 @@ def run(ctx):
                     continue
             else:
                 op = {"path": path, "key": key, "text": rng.choice(TEXTS)} if rng.random() < 0.7 else \
-                     {"path": path, "key": key, "val": settings.canon(rng.choice([3, 2.5, [1, 2], "zz"]))}
+                     {"path": path, "key": key, "val": settings.canon(rng.choice([3, 2.5, [1, 2], "zz", 0, 0.0, False, [0, 5], [0.0, 20.0], [1, 0, 2], [[0, 1], [2, 0]], [False, True], (0, 3)]))}
             ops.append(op)
             if path == "sweep":
                 break
